@@ -726,7 +726,7 @@ func (c *vsCase) privmsg(cl *vsClient, opt vsPostOpt) bool {
 }
 
 func (c *vsCase) createClient(k int) {
-	cl := &vsClient{K: k, Nick: fmt.Sprintf("cl%d", k), Acks: []vsAck{}, Live: [][]string{}, Full: [][]string{}, cmid: uint64(1000 * (k + 1))}
+	cl := &vsClient{K: k, Nick: fmt.Sprintf("cl%d", k), Acks: []vsAck{}, Live: [][]string{}, Full: [][]string{}, LiveRead: [][]string{}, cmid: uint64(1000 * (k + 1))}
 	c.clients[k] = cl
 	c.order = append(c.order, k)
 	for attempt := 0; attempt < 50 && !cl.Created; attempt++ {
@@ -950,49 +950,68 @@ func (c *vsCase) liveFinish(wait bool) {
 
 // fetch reads the client's stream from lastseen until the PONG carrying token.
 func (c *vsCase) fetch(cl *vsClient, lastseen, token string) (msgs [][]string, last string, unsorted int, err error) {
-	base, err := c.srv.waitUp(c.ctx)
-	if err != nil {
-		return nil, "", 0, err
-	}
+	// Like the bridge: when the stream ends before the PONG (the request was superseded by a late-starting
+	// handler of an earlier, already cancelled request of the same session, or the node went away), reconnect with
+	// the id of the last message received and go on.
 	ctx, cancel := context.WithTimeout(c.ctx, 30*time.Second)
 	defer cancel()
+	var prev robust.Id
+	msgs = [][]string{}
+	for attempt := 0; ; attempt++ {
+		done, ferr := c.fetchOnce(ctx, cl, lastseen, token, &msgs, &last, &unsorted, &prev)
+		if done {
+			return msgs, last, unsorted, nil
+		}
+		if ctx.Err() != nil || attempt >= 20 {
+			return msgs, last, unsorted, fmt.Errorf("stream ended before the PONG %s (%d reconnects): %v", token, attempt, ferr)
+		}
+		if last != "" {
+			lastseen = last
+		}
+		time.Sleep(time.Millisecond)
+	}
+}
+
+func (c *vsCase) fetchOnce(ctx context.Context, cl *vsClient, lastseen, token string, msgs *[][]string, last *string, unsorted *int, prev *robust.Id) (bool, error) {
+	base, err := c.srv.waitUp(ctx)
+	if err != nil {
+		return false, err
+	}
 	req, _ := http.NewRequestWithContext(ctx, "GET", base+"/robustirc/v1/"+cl.sid+"/messages?lastseen="+lastseen, nil)
 	req.Header.Set("X-Session-Auth", cl.auth)
-	resp, err := c.httpc.Do(req)
+	resp, err := c.streamc.Do(req)
 	if err != nil {
-		return nil, "", 0, err
+		return false, err
 	}
 	defer resp.Body.Close()
 	if resp.StatusCode != http.StatusOK {
 		b, _ := io.ReadAll(io.LimitReader(resp.Body, 300))
-		return nil, "", 0, fmt.Errorf("GET messages: status %d %s", resp.StatusCode, strings.TrimSpace(string(b)))
+		return false, fmt.Errorf("GET messages: status %d %s", resp.StatusCode, strings.TrimSpace(string(b)))
 	}
 	dec := json.NewDecoder(resp.Body)
-	var prev robust.Id
-	msgs = [][]string{}
 	for {
 		var m robust.Message
 		if err := dec.Decode(&m); err != nil {
-			return msgs, last, unsorted, fmt.Errorf("stream ended before the PONG %s: %v", token, err)
+			return false, err
 		}
 		if m.Type != robust.IRCToClient {
 			continue
 		}
 		if m.Id.Id < prev.Id || (m.Id.Id == prev.Id && m.Id.Reply <= prev.Reply) {
-			unsorted++
+			*unsorted++
 		}
-		prev = m.Id
-		last = fmt.Sprintf("%d.%d", m.Id.Id, m.Id.Reply)
+		*prev = m.Id
+		*last = fmt.Sprintf("%d.%d", m.Id.Id, m.Id.Reply)
 		f := strings.SplitN(m.Data, " ", 4)
 		if len(f) >= 3 && f[1] == "PONG" && strings.TrimPrefix(f[2], ":") == token {
-			return msgs, last, unsorted, nil
+			return true, nil
 		}
 		if len(f) == 4 && f[1] == "PRIVMSG" && f[2] == vsChannel {
 			nick := strings.TrimPrefix(f[0], ":")
 			if i := strings.Index(nick, "!"); i >= 0 {
 				nick = nick[:i]
 			}
-			msgs = append(msgs, []string{nick, strings.TrimPrefix(f[3], ":")})
+			*msgs = append(*msgs, []string{nick, strings.TrimPrefix(f[3], ":")})
 		}
 	}
 }
